@@ -14,7 +14,7 @@ import re
 
 S = Sym
 PROPERTY = 'C06'
-PROPS_MODULES = ['C06', 'C06b', 'C06c', 'C01c']
+PROPS_MODULES = ['C06', 'C06b', 'C06c', 'C01c', 'C06d', 'C06e', 'C06f', 'C06g', 'C06h']
 ASSUMPTIONS = ['the printed text is compared with the model printer token by token, numeric tokens by value (Python float formatting of '
                'time bounds is outside the exact model)']
 
@@ -111,7 +111,7 @@ def run(ctx):
                 disagreements.append({'input': {'entry': entry, 'source': src}, 'impl': str(ast), 'model': str(x[1])})
     # the token-level round-trip theorem (Props/C06b parse_toks_roundtrip) on the concrete texts: the parser's tree satisfies the
     # theorem's hypothesis (`printable`), the lexer makes `Raw.toks` of the printed form, the parser reads `Raw.toks` back
-    rt = {'checked': 0, 'printable': 0, 'toks_equal': 0, 'read_back': 0}
+    rt = {'checked': 0, 'printable': 0, 'toks_equal': 0, 'read_back': 0, 'literal_tokens_complete': 0, 'model_text_is_chars': 0}
     if ctx.driver is not None:
         rt_items = [(entry, src, ast) for entry, src, _, _, ast in items if entry in ('expression', 'predicate')]
         rt_items += [(entry, str(ast), ast) for entry, src, _, _, ast in items if entry in ('expression', 'predicate') and not (entry == 'predicate' and ast.is_vacuous)]
@@ -124,12 +124,15 @@ def run(ctx):
                 disagreements.append({'input': {'entry': entry, 'source': src}, 'impl': 'accepted', 'model': str(x), 'op': 'rtcheck'})
                 continue
             rt['checked'] += 1
-            flags = [str(v) == '1' for v in x[1:4]]
+            flags = [str(v) == '1' for v in x[1:6]]
             rt['printable'] += flags[0]; rt['toks_equal'] += flags[1]; rt['read_back'] += flags[2]
+            if len(flags) > 3:      # expressions / predicates: hypotheses of the text-level theorems (Props/C06g-h)
+                rt['literal_tokens_complete'] += flags[3]; rt['model_text_is_chars'] += flags[4]
             if not all(flags):
                 disagreements.append({'input': {'entry': entry, 'source': src}, 'op': 'rtcheck',
-                                      'impl': 'accepted', 'model': {'printable': flags[0], 'lexer_makes_toks_of_printed_form': flags[1], 'toks_read_back': flags[2]},
-                                      'what': 'the token-level round-trip theorem does not cover this parser output'})
+                                      'impl': 'accepted', 'model': {'printable': flags[0], 'lexer_makes_toks_of_printed_form': flags[1], 'toks_read_back': flags[2],
+                                                                    'literal_tokens_and_names_complete (lexOkB)': flags[3:4], 'model_text_is_Raw_chars': flags[4:5]},
+                                      'what': 'the round-trip theorems (token level C06b/c, text level C06g/h) do not cover this parser output'})
     samples = [{'entry': e, 'source': s[:120], 'printed': str(a)[:160]} for e, s, _, _, a in items[:2] + items[n:n + 3] + items[-2:]]
     return {
         'evaluations': len(items),
